@@ -18,10 +18,36 @@ except Exception:  # pragma: no cover
     HAVE = False
 
 ARITH = {z3.Z3_OP_ADD, z3.Z3_OP_SUB, z3.Z3_OP_MUL, z3.Z3_OP_DIV, z3.Z3_OP_UMINUS, z3.Z3_OP_POWER}
+INT_ARITH = {z3.Z3_OP_ADD, z3.Z3_OP_SUB, z3.Z3_OP_MUL, z3.Z3_OP_UMINUS}
 
 
 def _is_arith(e):
-    return z3.is_app(e) and e.decl().kind() in ARITH and e.sort().kind() == z3.Z3_REAL_SORT
+    if not z3.is_app(e):
+        return False
+    k = e.decl().kind()
+    if e.sort().kind() == z3.Z3_REAL_SORT:
+        return k in ARITH or k == z3.Z3_OP_TO_REAL
+    if e.sort().kind() == z3.Z3_INT_SORT:
+        # integer ring operations embed into the field (to_real is a ring homomorphism); div / mod stay atoms
+        return k in INT_ARITH
+    return False
+
+
+COLLAPSE = {}
+
+
+def _collapsed(e):
+    """if-then-else whose two arms are identical as field elements (e.g. |x| with x = 0) is its arm"""
+    if z3.is_app_of(e, z3.Z3_OP_ITE) and e.sort().kind() in (z3.Z3_REAL_SORT, z3.Z3_INT_SORT):
+        i = e.get_id()
+        hit = COLLAPSE.get(i)
+        if hit is not None and hit[0].eq(e):
+            return hit[1]
+        c, a, b = e.children()
+        r = a if (a.eq(b) or equal_terms(a, b) is True) else None
+        COLLAPSE[i] = (e, r)
+        return r
+    return None
 
 
 def _atoms(e, out, seen):
@@ -30,6 +56,10 @@ def _atoms(e, out, seen):
         return
     seen.add(i)
     if z3.is_rational_value(e) or z3.is_int_value(e):
+        return
+    col = _collapsed(e)
+    if col is not None:
+        _atoms(col, out, seen)
         return
     if _is_arith(e):
         if e.decl().kind() == z3.Z3_OP_POWER:
@@ -76,6 +106,8 @@ class Conv:
             r = (R(QQ(e.numerator_as_long(), e.denominator_as_long())), R(1))
         elif z3.is_int_value(e):
             r = (R(e.as_long()), R(1))
+        elif _collapsed(e) is not None:
+            r = self.frac(_collapsed(e))
         elif i in self.var:
             r = (self.var[i], R(1))
         elif _is_arith(e):
@@ -97,6 +129,8 @@ class Conv:
                     else:
                         n, d = n * d2 - n2 * d, d * d2
                 r = (n, d)
+            elif k == z3.Z3_OP_TO_REAL:
+                r = ch[0]
             elif k == z3.Z3_OP_UMINUS:
                 r = (-ch[0][0], ch[0][1])
             elif k == z3.Z3_OP_MUL:
@@ -129,7 +163,7 @@ def equal_terms(a, b):
     """True if a == b is an identity of the field generated by the atoms; False if not; None if not applicable"""
     if not HAVE:
         return None
-    if a.sort().kind() != z3.Z3_REAL_SORT or b.sort().kind() != z3.Z3_REAL_SORT:
+    if a.sort().kind() not in (z3.Z3_REAL_SORT, z3.Z3_INT_SORT) or b.sort().kind() not in (z3.Z3_REAL_SORT, z3.Z3_INT_SORT):
         return None
     try:
         cv = Conv([a, b])
